@@ -9,6 +9,14 @@ V = os.path.dirname(os.path.dirname(os.path.abspath(__file__)))
 jobs = int(sys.argv[sys.argv.index("--jobs") + 1]) if "--jobs" in sys.argv else 6
 seeds = sys.argv[sys.argv.index("--seeds") + 1] if "--seeds" in sys.argv else "0"
 ids = sorted(os.path.basename(os.path.dirname(p)) for p in glob.glob(f"{V}/seeded/*/patch.diff"))
+props = sys.argv[sys.argv.index("--props") + 1].split(",") if "--props" in sys.argv else None   # only the changes of these properties; other rows kept
+old = {}
+if props:
+    import json
+    for l in open(f"{V}/seeded/RESULTS.md"):
+        if l.startswith("| ") and not l.startswith("| seeded change"):
+            old[l.split("|")[1].strip()] = l.rstrip("\n")
+    ids = [i for i in ids if json.load(open(f"{V}/seeded/{i}/meta.json"))["property"] in props]
 # keep the changes of one property in different chunks so that parallel runs of one check are rare
 chunks = [ids[i::jobs] for i in range(jobs)]
 procs = [subprocess.Popen([f"{V}/tools/seeded.py", "--wt", "--seeds", seeds] + c, stdout=subprocess.PIPE, stderr=subprocess.STDOUT, text=True, cwd=V)
@@ -28,6 +36,8 @@ for i in again:
     for l in out.splitlines():
         if l.startswith("| " + i + " "):
             rows[i] = l + " (re-run alone)"
+for i, l in old.items():
+    rows.setdefault(i, l)
 n = len(rows); c = sum("CAUGHT" in l for l in rows.values()); o = sum("obsolete" in l for l in rows.values())
 hdr = (f"{n} seeded changes; {c} caught, {o} obsolete, {n - c - o} not caught. Quick tier, seed(s) {seeds}; run by `tools/matrix.py` "
        f"({jobs} scratch worktrees of /repo HEAD in parallel, rows first missed re-run alone).\n\n")
